@@ -229,6 +229,8 @@ type sev struct {
 	decHook  *types.Func
 	// further summarised codec pairs: decoder -> encoder
 	pairs map[*types.Func]*types.Func
+	// function-style codec pairs (enc(x) (J, error) / dec(J) (x, error)): decoder -> encoder
+	fnPairs map[*types.Func]*types.Func
 	depth    int
 	loops    []*loopCollector
 	notes    []string
@@ -560,6 +562,37 @@ func (s *sev) callFn(fr *sevFrame, f *tFn, args []tv, packed bool, resT types.Ty
 		}
 		recv, rc, args = args[0], nil, args[1:]
 	}
+	// function-style pairs
+	if !s.hookTop {
+		for d, e := range s.fnPairs {
+			sig := fo.Type().(*types.Signature)
+			if fo == e && len(args) >= 1 {
+				var res tv = &tEnc{X: args[0], By: fo}
+				if _, isPtr := types.Unalias(sig.Results().At(0).Type()).Underlying().(*types.Pointer); isPtr {
+					res = &tPtr{&tcell{res}}
+				}
+				if sig.Results().Len() == 2 {
+					return &tTuple{[]tv{res, tNil{}}}
+				}
+				return res
+			}
+			if fo == d && len(args) >= 1 {
+				a := args[0]
+				if pp, ok := a.(*tPtr); ok {
+					a = pp.C.v
+				}
+				if en, ok := a.(*tEnc); ok && en.By == e {
+					if sig.Results().Len() == 2 {
+						return &tTuple{[]tv{en.X, tNil{}}}
+					}
+					return en.X
+				}
+				if s.depth > 0 {
+					s.abort("summarised decoder %s applied to %s", fo.Name(), a.ts())
+				}
+			}
+		}
+	}
 	// hooks: the codec under study (its outermost call is inlined, nested calls are summarised) and further pairs
 	isEnc, isDec := s.encHook != nil && fo == s.encHook && !s.hookTop, s.decHook != nil && fo == s.decHook && !s.hookTop
 	var pairedEnc *types.Func = s.encHook
@@ -679,6 +712,17 @@ func (s *sev) callFn(fr *sevFrame, f *tFn, args []tv, packed bool, resT types.Ty
 			if k, ok := args[0].(*tKeys); ok {
 				return &tKeys{Of: k.Of, Sorted: true}
 			}
+		case "sort.Strings", "slices.Sort", "sort.Slice", "slices.SortFunc":
+			if e, ok := args[0].(*tEach); ok {
+				e.Sorted = true
+				return &tTuple{}
+			}
+			if _, ok := args[0].(tNil); ok {
+				return &tTuple{}
+			}
+			if _, ok := args[0].(*tAcc); ok {
+				s.abort("sorting a collection while it is being accumulated")
+			}
 		case "fmt.Errorf", "errors.New":
 			return &tErr{"constructed"}
 		case "encoding/json.Marshal":
@@ -718,7 +762,7 @@ func (s *sev) callFn(fr *sevFrame, f *tFn, args []tv, packed bool, resT types.Ty
 			return res
 		}
 		if aborted != "" {
-			s.note("treated as an uninterpreted function of its arguments: " + fo.FullName())
+			s.note("treated as an uninterpreted function of its arguments: " + fo.FullName() + " (" + clipS(aborted, 160) + ")")
 		}
 	} else if res := s.callDecl(fo, recv, rc, args, packed); res != nil {
 		return res
@@ -811,7 +855,7 @@ func (s *sev) isNil(v tv) (isNil, known bool) {
 	switch x := v.(type) {
 	case tNil:
 		return true, true
-	case *tPtr, *tObj, *tEach, *tMapEach, *tMapLit, *tEnc, *tFn, *tKeys, *tErr:
+	case *tPtr, *tObj, *tEach, *tMapEach, *tMapLit, *tEnc, *tFn, *tKeys, *tErr, *tAcc:
 		return false, true
 	case *tSliceLit:
 		return false, true
@@ -843,6 +887,22 @@ func (s *sev) lenOf(v tv) (int, bool) {
 		}
 	}
 	return 0, false
+}
+
+// emptinessSource: an element-wise image is empty exactly when the collection it was built from is.
+func emptinessSource(v tv) tv {
+	for i := 0; i < 8; i++ {
+		switch x := v.(type) {
+		case *tEach:
+			v = x.Over
+			continue
+		case *tMapEach:
+			v = x.Over
+			continue
+		}
+		break
+	}
+	return v
 }
 
 func sameTerm(a, b tv) bool {
@@ -919,7 +979,7 @@ func (s *sev) evalBinary(fr *sevFrame, e *ast.BinaryExpr) tv {
 		// len(x) > 0 and friends on symbolic collections: split on emptiness
 		if l, ok := x.(*tLen); ok && oky {
 			if n, ok := constant.Int64Val(cy.V); ok && ((e.Op == token.GTR && n == 0) || (e.Op == token.GEQ && n == 1)) {
-				c := s.choose("empty:"+l.X.ts(), []string{"empty", "nonempty"})
+				c := s.choose("empty:"+emptinessSource(l.X).ts(), []string{"empty", "nonempty"})
 				return mk(c == "nonempty")
 			}
 		}
@@ -1476,6 +1536,13 @@ func (s *sev) loopAwareStore(fr *sevFrame, c *tcell, v tv) {
 	if len(s.loops) > 0 {
 		lc := s.loops[len(s.loops)-1]
 		if s.isOuterCell(lc, c) {
+			// lazily creating an empty collection (if m == nil { m = T{} }) changes nothing observable
+			if ml, ok := v.(*tMapLit); ok && len(ml.Keys) == 0 {
+				if _, wasNil := c.v.(tNil); wasNil || c.v == nil {
+					c.v = v
+					return
+				}
+			}
 			// append form?
 			if sl, ok := v.(*tSliceLit); ok && sl.FromAcc && len(sl.Elems) == 1 {
 				if _, dup := lc.appends[c]; dup {
@@ -2126,7 +2193,7 @@ func (s *sev) execRange(fr *sevFrame, x *ast.RangeStmt) ctl {
 	default:
 		s.abort("range over %s", over.ts())
 	}
-	if s.assume["empty:"+over.ts()] == "empty" {
+	if s.assume["empty:"+emptinessSource(over).ts()] == "empty" {
 		return ctlNone
 	}
 	runBody := func() ctl {
@@ -2149,6 +2216,7 @@ func (s *sev) execRange(fr *sevFrame, x *ast.RangeStmt) ctl {
 		}
 		return c
 	}
+	nsymAtLoop := s.nsym
 	if runBody() == ctlReturn {
 		return ctlReturn
 	}
@@ -2167,9 +2235,12 @@ func (s *sev) execRange(fr *sevFrame, x *ast.RangeStmt) ctl {
 			cl.v = &tAcc{Prev: kv[1], IsMap: true, Key: kv[0]}
 		}
 		lc.appends, lc.mapSets, lc.idxSets = map[*tcell][]tv{}, map[*tcell][2]tv{}, map[*tcell]tv{}
-		nsym := s.nsym
+		nsymAfter := s.nsym
+		s.nsym = nsymAtLoop // the second pass names nested representative elements as the first did
 		runBody()
-		_ = nsym
+		if s.nsym < nsymAfter {
+			s.nsym = nsymAfter
+		}
 		for cl, want := range first {
 			got := ""
 			if vs, ok := lc.appends[cl]; ok {
@@ -2285,6 +2356,11 @@ func (s *sev) identity(out tv, sym *tSym, allowSorted func(path string) bool) []
 		switch x := o.(type) {
 		case *tSym:
 			if x.Name == want.Name {
+				_, xi := types.Unalias(x.T).Underlying().(*types.Interface)
+				_, wi := types.Unalias(want.T).Underlying().(*types.Interface)
+				if x.T != nil && want.T != nil && !xi && !wi && namedOf(x.T) != nil && namedOf(want.T) != nil && !sameNamed(x.T, want.T) && d == 0 {
+					diffs = append(diffs, fmt.Sprintf("%s: comes back as a %s, it was a %s", path, typeShort(x.T), typeShort(want.T)))
+				}
 				return
 			}
 			diffs = append(diffs, fmt.Sprintf("%s: holds %s, expected %s", path, x.Name, want.Name))
@@ -2321,7 +2397,24 @@ func (s *sev) identity(out tv, sym *tSym, allowSorted func(path string) bool) []
 			rec(x.Body, x.Elem, path+"[]", d+1)
 			return
 		case *tMapEach:
-			diffs = append(diffs, fmt.Sprintf("%s: is a map, expected %s", path, want.Name))
+			if _, isMap := types.Unalias(want.T).Underlying().(*types.Map); !isMap {
+				diffs = append(diffs, fmt.Sprintf("%s: is a map, expected %s", path, want.Name))
+				return
+			}
+			if !sameTerm(x.Over, want) {
+				diffs = append(diffs, fmt.Sprintf("%s: built from %s, expected from %s", path, x.Over.ts(), want.Name))
+				return
+			}
+			if x.Key.ts() != "key:"+x.Elem.Name {
+				diffs = append(diffs, fmt.Sprintf("%s: entries are keyed by %s, expected the original key", path, x.Key.ts()))
+			}
+			rec(x.Val, x.Elem, path+"[*]", d+1)
+			return
+		case *tMapLit:
+			if len(x.Keys) == 0 && s.assume["empty:"+want.Name] == "empty" {
+				return
+			}
+			diffs = append(diffs, fmt.Sprintf("%s: holds %s, expected %s", path, x.ts(), want.Name))
 			return
 		case tNil:
 			if st := structOf(want.T); st != nil && st.NumFields() == 0 {
